@@ -105,9 +105,11 @@ def expected(method, fixed, tail):
     return d
 
 
-BAD_INTS = ["", "x", "1.5", "0x10", "--1", "1__0", "_1", "1_", "+", "-", "1e3"]
-BAD_MODES = ["X", "r", "m", "1", "Q#", "*"]
-BAD_PLATS = ["X", "a", "AG", "GG", "1", "##"]
+# malformed tokens include characters that are special to str.format / % formatting / regexes / paths
+BAD_INTS = ["", "x", "1.5", "0x10", "--1", "1__0", "_1", "1_", "+", "-", "1e3", "{0}", "{", "%d", "1}"]
+BAD_MODES = ["X", "r", "m", "1", "Q#", "*", "{M}", "{", "}", "%s", "{0}", "\\"]
+BAD_PLATS = ["X", "a", "AG", "GG", "1", "##", "{A}", "{}", "%s", "}{"]
+BAD_MARKERS = ["S", "I", "M", "P", "B", "s", "S1", "", "#", "{S}", "{", "}", "{0}", "%s", "%(S)s", "S}", "\\S"]
 
 
 def malform(method, toks, R):
@@ -129,7 +131,7 @@ def malform(method, toks, R):
                 return toks, "noop", False
         if method in ("SUB", "USB", "NSC", "GIS", "GSC", "NUM", "MDA", "MSA", "MDC") and pos >= nfixed:
             return toks, "noop", False
-        new = R.choice([m for m in ["S", "I", "M", "P", "B", "s", "S1", "", "#"] if m != toks[pos]])
+        new = R.choice([m for m in BAD_MARKERS if m != toks[pos]])
         return toks[:pos] + [new] + toks[pos + 1:], "marker", True
     if k == 2:                                            # corrupt a typed value in a fixed slot
         slots = [i for i, (_, ty) in enumerate(tys) if ty in "IMP"]
@@ -152,7 +154,7 @@ def malform(method, toks, R):
         return toks[:pos] + [toks[pos]] + toks[pos:], "duplicate", False
     if k == 5:                                            # random token list
         n = R.randrange(0, 9)
-        return [R.choice(["S", "I", "M", "P", "#", "$", "a", "1", "-3", "R", "A", "x+y", "%41", "", " "]) for _ in range(n)], "random", False
+        return [R.choice(["S", "I", "M", "P", "#", "$", "a", "1", "-3", "R", "A", "x+y", "%41", "", " ", "{S}", "{", "}", "%s", "{0}"]) for _ in range(n)], "random", False
     return toks + [R.choice(["S", "x", "S|", ""])], "append", False
 
 
@@ -378,6 +380,8 @@ def run_meta(method, toks, script):
             closure = getattr(srv, "_on_" + method.lower())(list(toks))
         except p.RemotingException as e:
             return "err " + (method if ("parsing %s request" % method) in str(e) else "UNNAMED"), log, None
+        except Exception as e:          # anything else escaping the decoder kills the reader thread (C09)
+            return "err OTHER:" + type(e).__name__, log, None
         try:
             reply = closure()
             tail = "reply " + C.hx(reply)
@@ -449,6 +453,9 @@ def stream_meta(tier):
             impl.append(" ".join(ans.split()))
             res.distribution["%s_%s_%s" % (method, kind, ans.split(" ; ")[-1].split(" ")[0] if " ; " in ans else "parse-error")] += 1
             res.nontrivial.add((method, kind, tuple(toks), ans))
+            if ans.startswith("err OTHER") or ans.startswith("err UNNAMED"):
+                res.violation("decode-error-type:" + method, "decoding a %s request raised %s instead of the protocol error naming %s" % (method, ans[4:], method),
+                              {"method": method, "tokens": toks})
             if j % 10 == 9 or ans.startswith("err"):
                 continue
             # ---- oracles on the real code (C04 dispatch/kind, C06 wiring, C07 no-line-on-unsupported)
